@@ -193,8 +193,9 @@ Section WithTables.
     match n with O => [] | S n' => v :: range_from (N.succ v) n' end.
 
   Definition tables_ok : bool :=
+    (1 <=? t_latest T)%N
     (* every feature is added at a version in 1..LATEST and deprecated strictly later *)
-    forallb (fun f => (1 <=? added f)%N && (added f <=? t_latest T)%N
+    && forallb (fun f => (1 <=? added f)%N && (added f <=? t_latest T)%N
                       && match deprecated f with Some d => (added f <? d)%N | None => true end) (t_all T)
     (* there is an upgrade function for every step 1 -> 2 -> ... -> LATEST, and each one is well formed *)
     && forallb (fun v => match lookup_upgrade v (t_upgrades T) with
